@@ -124,11 +124,11 @@ func checkC15(c c15Case) (Outcome, error) {
 		for i := range data {
 			e := rn.B2bit(data[i])
 			for j := range e {
-				e[j] = !e[j]
+				e[j] = j%3 == 0
 			}
 		}
 		for j := range got {
-			got[j] = !got[j]
+			got[j] = j%3 == 0
 		}
 		again := rn.B2bitArr(data)
 		for i := range bits {
